@@ -377,7 +377,9 @@ func (p *Peer) await(cond func() bool) (quiesce.Outcome, []quiesce.G) {
 		}
 		span.Observe(gs)
 		if time.Now().After(deadline) {
-			return span.Classify(), quiesce.Snapshot()
+			if o, over := span.AtDeadline(&deadline, Watchdog); over {
+				return o, quiesce.Snapshot()
+			}
 		}
 		if wait < 20*time.Millisecond {
 			wait *= 2
